@@ -471,6 +471,7 @@ Proof.
   - (* NbhdMask *) case_all; exact I.
   - (* Aggregate *) case_all; exact I.
   - exact I.
+  - case_all; exact I.
 Qed.
 
 Lemma run_state_inv st ops : inv st -> inv (run_state st ops).
@@ -555,6 +556,7 @@ Proof.
   - case_all; apply frame_refl.
   - case_all; apply frame_refl.
   - apply frame_refl.
+  - case_all; apply frame_refl.
 Qed.
 
 Lemma run_state_frame st ops : frame st (run_state st ops).
@@ -645,6 +647,7 @@ Proof.
   - case_all; intros H; inversion H; reflexivity.
   - case_all; intros H; inversion H; reflexivity.
   - intros H; inversion H.
+  - case_all; intros H; inversion H.
 Qed.
 
 (* reachable states *)
